@@ -96,4 +96,360 @@ macro "step_tac" : tactic => `(tactic| (
    simp [execInstr, execInstrR, resolveInstr, mkSem, liftEff, onFrame, effShape, SameShape, fiOf, condJump, apply_ite, *])))
 
 
+set_option hygiene false in
+macro "step_tac" : tactic => `(tactic| (
+  intro eff h
+  simp [execInstr, mkSem, condJump] at h <;>
+  ((first
+      | (have h2 := Option.some.inj h; subst h2)
+      | (obtain ⟨_, _, h2⟩ := Option.map_eq_some_iff.mp h; subst h2)
+      | (obtain ⟨_, _, h3⟩ := Option.bind_eq_some_iff.mp h; first
+          | (have h2 := Option.some.inj h3; subst h2)
+          | (obtain ⟨_, _, h2⟩ := Option.map_eq_some_iff.mp h3; subst h2)
+          | (obtain ⟨_, _, h4⟩ := Option.bind_eq_some_iff.mp h3; first
+              | (have h2 := Option.some.inj h4; subst h2)
+              | (obtain ⟨_, _, h2⟩ := Option.map_eq_some_iff.mp h4; subst h2))));
+   simp [execInstr, execInstrR, resolveInstr, mkSem, liftEff, onFrame, effShape, SameShape, fiOf, condJump, apply_ite, *];
+   try (rename_i hm; obtain ⟨_, hx, rfl⟩ := Option.map_eq_some_iff.mp hm; simp [hx]);
+   try (split <;> simp_all [liftEff, onFrame, effShape, SameShape]))))
+
+theorem step_ok {cf : CallF B} (i : Instr) (hi : ∀ f n r, i ≠ .callUser f n r) (tmp : List B.S.V) (fr : Frame B.S.V) (w : B.S.W)
+    (below : List B.S.V) : StepOK (cf := cf) i tmp fr w below := by
+  unfold StepOK
+  cases i with
+  | callUser f n r => exact absurd rfl (hi f n r)
+  | getVar sc k => cases sc <;> step_tac
+  | assignVar sc k => cases sc <;> rcases tmp with _ | ⟨a, t⟩ <;> step_tac
+  | incrVar sc dec k => cases sc <;> step_tac
+  | augVar sc op k => cases sc <;> rcases tmp with _ | ⟨a, t⟩ <;> step_tac
+  | nulls k =>
+    intro eff h
+    simp only [execInstr] at h
+    have h2 := Option.some.inj h; subst h2
+    simp [execInstrR, resolveInstr, execInstr, mkSem, liftEff, onFrame, effShape, SameShape, fiOf]
+    exact (List.append_assoc _ _ _).symm
+  | indexMulti n =>
+    intro eff h
+    simp only [execInstr] at h
+    split at h
+    · rename_i hn
+      have h2 := Option.some.inj h; subst h2
+      have hn' : n ≤ tmp.length := hn
+      simp [execInstrR, resolveInstr, execInstr, mkSem, liftEff, onFrame, effShape, SameShape, fiOf,
+        List.take_append_of_le_length hn', List.drop_append_of_le_length hn']
+      try omega
+    · simp at h
+  | concatMulti n =>
+    intro eff h
+    simp only [execInstr] at h
+    split at h
+    · rename_i hn
+      have h2 := Option.some.inj h; subst h2
+      have hn' : n ≤ tmp.length := hn
+      simp [execInstrR, resolveInstr, execInstr, mkSem, liftEff, onFrame, effShape, SameShape, fiOf,
+        List.take_append_of_le_length hn', List.drop_append_of_le_length hn']
+      try omega
+    · simp at h
+  | print n =>
+    intro eff h
+    simp only [execInstr] at h
+    split at h
+    · rename_i hn
+      obtain ⟨fw2, hp, h2⟩ := Option.map_eq_some_iff.mp h; subst h2
+      obtain ⟨w2, hp2, rfl⟩ := Option.map_eq_some_iff.mp hp
+      have hn' : n ≤ tmp.length := hn
+      simp [execInstrR, resolveInstr, execInstr, mkSem, liftEff, onFrame, effShape, SameShape, fiOf,
+        List.take_append_of_le_length hn', List.drop_append_of_le_length hn', hp2]
+      exact ⟨by omega, hp2⟩
+    · simp at h
+  | _ => rcases tmp with _ | ⟨a, _ | ⟨b, _ | ⟨c, t⟩⟩⟩ <;> step_tac
+
+/-- a state of the framed semantics as a state of the VM whose stack continues with `below` under the frame -/
+def liftSt {cf : CallF B} (below : List B.S.V) (a : St (mkSem B cf)) : RSt B :=
+  ⟨a.pc, onFrame a.stk a.w below, fiOf (a.w : FW B).1 below, (a.w : FW B).2⟩
+
+theorem cons_app3 {α} (v : α) (d x b : List α) : v :: (d ++ (x ++ b)) = v :: d ++ x ++ b := by simp
+
+theorem fiOf_shape {fr fr' : Frame B.S.V} (h : SameShape fr fr') (below : List B.S.V) : fiOf fr' below = fiOf fr below := by
+  obtain ⟨h1, h2, h3⟩ := h
+  simp [fiOf, h1, h2, h3]
+
+theorem SameShape.refl (fr : Frame B.S.V) : SameShape fr fr := ⟨rfl, rfl, rfl⟩
+theorem SameShape.trans {a b c : Frame B.S.V} (h1 : SameShape a b) (h2 : SameShape b c) : SameShape a c :=
+  ⟨h2.1.trans h1.1, h2.2.1.trans h1.2.1, h2.2.2.trans h1.2.2⟩
+
+variable (FT : FunTable)
+
+/-- the refinement statement for call-nesting fuel `n` -/
+def Refines (B : Base) (FT : FunTable) (n : Nat) : Prop :=
+  ∀ (C : Code) (a b : St (FS B FT n)), Reach (FS B FT n) C a b →
+    SameShape (a.w : FW B).1 (b.w : FW B).1 ∧
+    ∀ below out, RBig B FT C (liftSt below b) out → RBig B FT C (liftSt below a) out
+
+theorem callN_frame (n : Nat) (f : Nat) (vs : List B.S.V) (refs : List (AScope × Nat)) (fw : FW B) (r : B.S.V × FW B)
+    (h : callN B FT n f vs refs fw = some r) : r.2.1 = fw.1 := by
+  cases n with
+  | zero => simp [callN] at h
+  | succ k =>
+    simp only [callN, callBody] at h
+    split at h
+    · simp at h
+    · split at h
+      · simp at h
+      · split at h <;> simp at h <;> (subst h; rfl)
+
+theorem step_refines (L : Laws B.S) (M : StmtLaws B.S) (hFT : ∀ fn ∈ FT, fn.body.WF) (n : Nat)
+    (hcall : ∀ k, n = k + 1 → Refines B FT k) (C : Code) (pc : Nat) (tmp : List B.S.V) (fr : Frame B.S.V) (w : B.S.W)
+    (b : St (FS B FT n)) (hs : stepTo (FS B FT n) C ⟨pc, tmp, (fr, w)⟩ = some b) :
+    SameShape fr (b.w : FW B).1 ∧
+    ∀ below out, RBig B FT C (liftSt below b) out →
+      RBig B FT C (liftSt (cf := callN B FT n) below ⟨pc, tmp, (fr, w)⟩) out := by
+  simp only [stepTo] at hs
+  split at hs
+  · simp at hs
+  · rename_i i hf
+    by_cases hi : ∀ f m r, i ≠ .callUser f m r
+    · -- an ordinary instruction
+      split at hs
+      · rename_i s' w' he
+        simp only [Option.some.injEq] at hs; subst hs
+        obtain ⟨hr, hsh⟩ := step_ok (cf := callN B FT n) i hi tmp fr w
+          (below := ([] : List B.S.V)) _ he
+        refine ⟨hsh, fun below out hb => ?_⟩
+        obtain ⟨hr, _⟩ := step_ok (cf := callN B FT n) i hi tmp fr w below _ he
+        refine RBig.step (i := i) (s' := onFrame s' w' below) (w' := (w' : FW B).2) hf hr ?_
+        have := fiOf_shape hsh below
+        simpa [liftSt, this] using hb
+      · rename_i off s' w' he
+        simp only [Option.some.injEq] at hs; subst hs
+        obtain ⟨hr, hsh⟩ := step_ok (cf := callN B FT n) i hi tmp fr w
+          (below := ([] : List B.S.V)) _ he
+        refine ⟨hsh, fun below out hb => ?_⟩
+        obtain ⟨hr, _⟩ := step_ok (cf := callN B FT n) i hi tmp fr w below _ he
+        refine RBig.jump (i := i) (off := off) (s' := onFrame s' w' below) (w' := (w' : FW B).2) hf hr ?_
+        have := fiOf_shape hsh below
+        simpa [liftSt, this] using hb
+      · simp at hs
+    · -- CallUser
+      have : ∃ f m r, i = .callUser f m r := by
+        cases i <;> first | exact ⟨_, _, _, rfl⟩ | (exfalso; apply hi; intro f m r h; cases h)
+      obtain ⟨f, nsc, refs, rfl⟩ := this
+      have hex : execInstr (FS B FT n) (.callUser f nsc refs) tmp (fr, w) =
+          if nsc ≤ tmp.length then
+            (callN B FT n f (tmp.take nsc).reverse refs (fr, w)).map (fun r => Eff.next (S := FS B FT n) (r.1 :: tmp.drop nsc) r.2)
+          else none := rfl
+      rw [hex] at hs
+      by_cases hle : nsc ≤ tmp.length
+      · rw [if_pos hle] at hs
+        cases hcl : callN B FT n f (tmp.take nsc).reverse refs (fr, w) with
+        | none => rw [hcl] at hs; simp at hs
+        | some r =>
+          rw [hcl] at hs
+          simp only [Option.map, Option.some.injEq] at hs
+          subst hs
+          have hfr := callN_frame FT n f _ refs (fr, w) r hcl
+          refine ⟨by rw [show (r.2 : FW B).1 = fr from hfr]; exact SameShape.refl fr, fun below out hb => ?_⟩
+          cases n with
+          | zero => simp [callN] at hcl
+          | succ k =>
+            have ihk := hcall k rfl
+            simp only [callN, callBody] at hcl
+            cases hfn : FT[f]? with
+            | none => simp [hfn] at hcl
+            | some fn =>
+              simp only [hfn] at hcl
+              split at hcl
+              · simp at hcl
+              · rename_i hcond
+                have hd : fr.depth < maxDepth := by
+                  have : ¬ maxDepth ≤ fr.depth := fun h => hcond (Or.inl h)
+                  omega
+                have hns : nsc = fn.numScalars := by
+                  have : ¬ (List.take nsc tmp).reverse.length ≠ fn.numScalars := fun h => hcond (Or.inr (Or.inl h))
+                  simp at this; omega
+                have hna : refs.length ≤ fn.numArrays := by
+                  have : ¬ fn.numArrays < refs.length := fun h => hcond (Or.inr (Or.inr h))
+                  omega
+                have hwf : fn.body.WF := hFT fn (List.mem_of_getElem? hfn)
+                -- names for the pieces of the call
+                have hvl : (List.take nsc tmp).reverse.length = fn.numScalars := by simp; omega
+                generalize hal : allocArrays B (fn.numArrays - refs.length) w = al at hcl
+                generalize hfr' : (⟨(List.take nsc tmp).reverse, refs.map (fun r => arrIdOf fr.larrs r.1 r.2) ++ al.1, fr.depth + 1⟩ :
+                  Frame B.S.V) = fr' at hcl
+                let below' : List B.S.V := tmp.drop nsc ++ fr.locals.reverse ++ below
+                have hcs : calleeSt B fn refs (liftSt (cf := callN B FT (k + 1)) below ⟨pc, tmp, (fr, w)⟩) =
+                    liftSt (cf := callN B FT k) below' ⟨0, [], (fr', al.2)⟩ := by
+                  subst hfr'
+                  simp only [calleeSt, liftSt, onFrame, fiOf, hal, List.reverse_reverse, List.nil_append, below']
+                  have e1 : tmp ++ fr.locals.reverse ++ below =
+                      List.take nsc tmp ++ (List.drop nsc tmp ++ fr.locals.reverse ++ below) := by
+                    rw [← List.append_assoc, ← List.append_assoc, List.take_append_drop]
+                  have e2 : (tmp ++ fr.locals.reverse ++ below).length - fn.numScalars =
+                      (List.drop nsc tmp ++ fr.locals.reverse ++ below).length := by
+                    simp; omega
+                  rw [e2]
+                  congr 1
+                  · simp [hvl]
+                have hlen : fn.numScalars ≤ (liftSt (cf := callN B FT (k + 1)) below ⟨pc, tmp, (fr, w)⟩).stk.length := by
+                  simp [liftSt, onFrame]; omega
+                have simB := (stmt_sim (mkSem_laws L (callN B FT k)) (mkSem_stmtLaws M (callN B FT k)) k).1 fn.body 0 0
+                  ([] : List B.S.V) (fr', al.2)
+                cases hx : exec (mkSem B (callN B FT k)) k fn.body (fr', al.2) with
+                | none => simp [hx] at hcl
+                | some o =>
+                  rw [hx] at hcl
+                  cases o with
+                  | ret v fw2 =>
+                    simp only [Option.some.injEq] at hcl; subst hcl
+                    have sim := simB _ hwf hx
+                    obtain ⟨st', hreach, hw', hcase⟩ := sim (cStmt 0 0 fn.body) 0 (CodeAt.whole _)
+                    obtain ⟨hsh, hlift⟩ := ihk (cStmt 0 0 fn.body) _ st' hreach
+                    have hsh' : SameShape fr' (fw2 : FW B).1 := by rw [← hw']; exact hsh
+                    have hcallee : RBig B FT (cStmt 0 0 fn.body) (liftSt (cf := callN B FT k) below' ⟨0, [], (fr', al.2)⟩)
+                        (.ret v ((fw2 : FW B).1.locals.reverse ++ below') (fw2 : FW B).2) := by
+                      refine hlift below' _ ?_
+                      rcases hcase with ⟨hfe, hstk⟩ | ⟨hfe, hstk, hv⟩
+                      · have := RBig.ret (B := B) (FT := FT) (C := cStmt 0 0 fn.body)
+                          (st := liftSt (cf := callN B FT k) below' st') (v := v)
+                          (s := (fw2 : FW B).1.locals.reverse ++ below') hfe
+                          (by show onFrame st'.stk st'.w below' = _; rw [hstk, hw']; rfl)
+                        simpa [liftSt, hw'] using this
+                      · have := RBig.retNull (B := B) (FT := FT) (C := cStmt 0 0 fn.body)
+                          (st := liftSt (cf := callN B FT k) below' st') hfe
+                        rw [hv]
+                        have h2 : RBig B FT (cStmt 0 0 fn.body) (liftSt (cf := callN B FT k) below' st')
+                            (ROut.ret B.S.nullV ((fw2 : FW B).1.locals.reverse ++ below') (fw2 : FW B).2) := by
+                          simpa [liftSt, onFrame, hstk, hw'] using this
+                        exact h2
+                    rw [← hcs] at hcallee
+                    refine RBig.callRet (f := f) (nsc := nsc) (refs := refs) hf hfn hd hlen hna hcallee ?_
+                    have e3 : ((fw2 : FW B).1.locals.reverse ++ below').drop fn.numScalars = below' := by
+                      have : (fw2 : FW B).1.locals.reverse.length = fn.numScalars := by
+                        rw [List.length_reverse, hsh'.1, ← hfr']; exact hvl
+                      rw [← this, List.drop_left]
+                    have hgoal : afterCall B fn (.callUser f nsc refs) (liftSt (cf := callN B FT (k + 1)) below ⟨pc, tmp, (fr, w)⟩) v
+                        ((fw2 : FW B).1.locals.reverse ++ below') (fw2 : FW B).2 =
+                        liftSt (cf := callN B FT (k + 1)) below ⟨pc + (Instr.callUser f nsc refs).size, v :: tmp.drop nsc,
+                          (fr, B.arrTrunc (B.arrCount w) (fw2 : FW B).2)⟩ := by
+                      simp only [afterCall, liftSt, onFrame, fiOf]
+                      rw [e3]
+                      simp only [below', List.cons_append, List.append_assoc]
+                      first | done | rfl | exact congrArg (fun s : List B.S.V => (⟨_, s, _, _⟩ : RSt B)) (cons_app3 (α := B.S.V) _ _ _ _)
+                    rw [hgoal]; exact hb
+                  | normal fw2 =>
+                    simp only [Option.some.injEq] at hcl; subst hcl
+                    have sim := simB _ hwf hx
+                    have hreach := sim (cStmt 0 0 fn.body) 0 (CodeAt.whole _)
+                    obtain ⟨hsh, hlift⟩ := ihk (cStmt 0 0 fn.body) _ _ hreach
+                    have hcallee : RBig B FT (cStmt 0 0 fn.body) (liftSt (cf := callN B FT k) below' ⟨0, [], (fr', al.2)⟩)
+                        (.normal ((fw2 : FW B).1.locals.reverse ++ below') (fw2 : FW B).2) := by
+                      refine hlift below' _ ?_
+                      have := RBig.done (B := B) (FT := FT) (C := cStmt 0 0 fn.body)
+                        (st := liftSt (cf := callN B FT k) below' ⟨0 + stmtSize fn.body, [], fw2⟩) (by simp [liftSt])
+                      exact this
+                    rw [← hcs] at hcallee
+                    refine RBig.callNormal (f := f) (nsc := nsc) (refs := refs) hf hfn hd hlen hna hcallee ?_
+                    have e3 : ((fw2 : FW B).1.locals.reverse ++ below').drop fn.numScalars = below' := by
+                      have : (fw2 : FW B).1.locals.reverse.length = fn.numScalars := by
+                        rw [List.length_reverse, hsh.1, ← hfr']; exact hvl
+                      rw [← this, List.drop_left]
+                    have hgoal : afterCall B fn (.callUser f nsc refs) (liftSt (cf := callN B FT (k + 1)) below ⟨pc, tmp, (fr, w)⟩) B.S.nullV
+                        ((fw2 : FW B).1.locals.reverse ++ below') (fw2 : FW B).2 =
+                        liftSt (cf := callN B FT (k + 1)) below ⟨pc + (Instr.callUser f nsc refs).size, B.S.nullV :: tmp.drop nsc,
+                          (fr, B.arrTrunc (B.arrCount w) (fw2 : FW B).2)⟩ := by
+                      simp only [afterCall, liftSt, onFrame, fiOf]
+                      rw [e3]
+                      simp only [below', List.cons_append, List.append_assoc]
+                      first | done | rfl | exact congrArg (fun s : List B.S.V => (⟨_, s, _, _⟩ : RSt B)) (cons_app3 (α := B.S.V) _ _ _ _)
+                    rw [hgoal]; exact hb
+                  | brk _ => simp at hcl
+                  | cont _ => simp at hcl
+                  | next _ => simp at hcl
+                  | exit _ => simp at hcl
+      · rw [if_neg hle] at hs; simp at hs
+
+theorem refines_of (L : Laws B.S) (M : StmtLaws B.S) (hFT : ∀ fn ∈ FT, fn.body.WF) (n : Nat)
+    (hcall : ∀ k, n = k + 1 → Refines B FT k) : Refines B FT n := by
+  intro C a b hr
+  induction hr with
+  | refl st => exact ⟨SameShape.refl _, fun _ _ h => h⟩
+  | @step a m c hs _ ih =>
+    obtain ⟨pc, tmp, fw⟩ := a
+    obtain ⟨h1, h2⟩ := step_refines FT L M hFT n hcall C pc tmp (fw : FW B).1 (fw : FW B).2 m hs
+    exact ⟨h1.trans ih.1, fun below out h => h2 below out (ih.2 below out h)⟩
+
+/-- the VM with frames on the value stack does whatever the VM over the framed semantics does (all call depths) -/
+theorem refines_all (L : Laws B.S) (M : StmtLaws B.S) (hFT : ∀ fn ∈ FT, fn.body.WF) : ∀ n, Refines B FT n := by
+  intro n
+  induction n with
+  | zero => exact refines_of FT L M hFT 0 (fun k h => by omega)
+  | succ k ih =>
+    refine refines_of FT L M hFT (k + 1) (fun j h => ?_)
+    have hj : j = k := by omega
+    subst hj; exact ih
+
+/-- the top-level frame: no locals, no local arrays, call depth 0 -/
+def topFrame (B : Base) : Frame B.S.V := ⟨[], [], 0⟩
+def topInfo : FInfo := ⟨0, 0, [], 0⟩
+
+/-- **compile_call_correct**: a whole block of a program with user functions. If direct evaluation of the syntax tree under
+the framed semantics (call-nesting fuel `n`, statement fuel `m`) ends normally / with `next` / with `exit`, then the VM with
+frames on its value stack, started on the compiled block with an empty stack, ends the same way with the same world. -/
+theorem compile_call_correct (L : Laws B.S) (M : StmtLaws B.S) (hFT : ∀ fn ∈ FT, fn.body.WF) (n m : Nat) (p : Stmt)
+    (hp : p.WF) (w : B.S.W) :
+    (∀ fw', exec (FS B FT n) m p (topFrame B, w) = some (.normal fw') →
+      RBig B FT (cStmt 0 0 p) ⟨0, [], topInfo, w⟩ (.normal [] (fw' : FW B).2)) ∧
+    (∀ fw', exec (FS B FT n) m p (topFrame B, w) = some (.next fw') →
+      RBig B FT (cStmt 0 0 p) ⟨0, [], topInfo, w⟩ (.next (fw' : FW B).2)) ∧
+    (∀ fw', exec (FS B FT n) m p (topFrame B, w) = some (.exit fw') →
+      RBig B FT (cStmt 0 0 p) ⟨0, [], topInfo, w⟩ (.exit (fw' : FW B).2)) := by
+  have sim := fun o => (stmt_sim (mkSem_laws L (callN B FT n)) (mkSem_stmtLaws M (callN B FT n)) m).1 p 0 0
+    ([] : List B.S.V) (topFrame B, w) o hp
+  have hC : CodeAt (cStmt 0 0 p) 0 (cStmt 0 0 p) := CodeAt.whole _
+  refine ⟨?_, ?_, ?_⟩
+  · intro fw' h
+    have r := sim _ h (cStmt 0 0 p) 0 hC
+    obtain ⟨hsh, hl⟩ := refines_all FT L M hFT n (cStmt 0 0 p) _ _ r
+    have hloc : (fw' : FW B).1.locals = [] := by
+      have := hsh.1; simp [topFrame] at this; exact this
+    have := hl [] _ (RBig.done (B := B) (FT := FT) (C := cStmt 0 0 p)
+      (st := liftSt (cf := callN B FT n) [] ⟨0 + stmtSize p, [], fw'⟩) (by simp [liftSt]))
+    have h2 : RBig B FT (cStmt 0 0 p) ⟨0, [], topInfo, w⟩
+        (.normal ([] ++ (fw' : FW B).1.locals.reverse ++ []) (fw' : FW B).2) := this
+    simpa [hloc] using h2
+  · intro fw' h
+    have r := sim _ h (cStmt 0 0 p) 0 hC
+    obtain ⟨st', i, e, hr, hf, he, ho⟩ := r
+    obtain ⟨hsh, hl⟩ := refines_all FT L M hFT n (cStmt 0 0 p) _ _ hr
+    have hi : ∀ f m r, i ≠ .callUser f m r := by
+      intro f m r hh; subst hh
+      simp only [ex_callUser] at he
+      split at he
+      · obtain ⟨x, _, hx⟩ := Option.map_eq_some_iff.mp he; subst hx; simp [stopOf] at ho
+      · simp at he
+    obtain ⟨pc', tmp', fwp⟩ := st'
+    obtain ⟨hr2, _⟩ := step_ok (cf := callN B FT n) i hi tmp' (fwp : FW B).1 (fwp : FW B).2 [] e he
+    cases e <;> simp [stopOf] at ho
+    subst ho
+    have := hl [] _ (RBig.stopNext (B := B) (FT := FT) (C := cStmt 0 0 p)
+      (st := liftSt (cf := callN B FT n) [] ⟨pc', tmp', fwp⟩) (i := i) hf hr2)
+    exact this
+  · intro fw' h
+    have r := sim _ h (cStmt 0 0 p) 0 hC
+    obtain ⟨st', i, e, hr, hf, he, ho⟩ := r
+    obtain ⟨hsh, hl⟩ := refines_all FT L M hFT n (cStmt 0 0 p) _ _ hr
+    have hi : ∀ f m r, i ≠ .callUser f m r := by
+      intro f m r hh; subst hh
+      simp only [ex_callUser] at he
+      split at he
+      · obtain ⟨x, _, hx⟩ := Option.map_eq_some_iff.mp he; subst hx; simp [stopOf] at ho
+      · simp at he
+    obtain ⟨pc', tmp', fwp⟩ := st'
+    obtain ⟨hr2, _⟩ := step_ok (cf := callN B FT n) i hi tmp' (fwp : FW B).1 (fwp : FW B).2 [] e he
+    cases e <;> simp [stopOf] at ho
+    subst ho
+    have := hl [] _ (RBig.stopExit (B := B) (FT := FT) (C := cStmt 0 0 p)
+      (st := liftSt (cf := callN B FT n) [] ⟨pc', tmp', fwp⟩) (i := i) hf hr2)
+    exact this
+
 end GoawkModel.C01
